@@ -77,6 +77,10 @@ var c09Sites = []c09Site{
 	{"doc-const", false, true},
 	{"doc-struct-field", false, false},
 	{"doc-local-type", false, false},
+	// members nested INSIDE a top-level type: their doc comments are not doc comments of a top-level declaration
+	{"doc-interface-method", false, false},
+	{"trailing-interface-method", false, false},
+	{"doc-func-typed-field", false, false},
 	{"trailing-type", false, false},
 	{"trailing-spec-in-group", true, false},
 	{"trailing-func", false, false},
@@ -127,6 +131,12 @@ func c09Program(s c09Site, place string, c string) *prog.Program {
 		slot["fieldDoc"] = lines(map[bool]string{false: "\t", true: "\t\t"}[s.Group])
 	case "doc-local-type":
 		slot["localDoc"] = lines("\t")
+	case "doc-interface-method":
+		slot["imethDoc"] = lines("\t")
+	case "trailing-interface-method":
+		slot["imethTrail"] = " " + c
+	case "doc-func-typed-field":
+		slot["fnDoc"] = lines(map[bool]string{false: "\t", true: "\t\t"}[s.Group])
 	case "trailing-type", "trailing-spec-in-group":
 		slot["typeTrail"] = " " + c
 	case "trailing-func":
@@ -163,9 +173,9 @@ func c09Program(s c09Site, place string, c string) *prog.Program {
 	if s.Group {
 		typeDecl = slot["groupDoc"] + "type (\n" +
 			"\t// Other is an unrelated type of the same group.\n\tOther int\n\n" +
-			slot["typeDoc"] + "\tT struct {\n" + slot["fieldDoc"] + "\t\tF int" + slot["fieldTrail"] + "\n\t\tS []int\n\t}" + slot["typeTrail"] + "\n)\n"
+			slot["typeDoc"] + "\tT struct {\n" + slot["fieldDoc"] + "\t\tF int" + slot["fieldTrail"] + "\n\t\tS []int\n" + slot["fnDoc"] + "\t\tFn func() int\n\t}" + slot["typeTrail"] + "\n)\n"
 	} else {
-		typeDecl = slot["typeDetached"] + slot["typeDoc"] + "type T struct {\n" + slot["fieldDoc"] + "\tF int" + slot["fieldTrail"] + "\n\tS []int\n}" + slot["typeTrail"] + "\n"
+		typeDecl = slot["typeDetached"] + slot["typeDoc"] + "type T struct {\n" + slot["fieldDoc"] + "\tF int" + slot["fieldTrail"] + "\n\tS []int\n" + slot["fnDoc"] + "\tFn func() int\n}" + slot["typeTrail"] + "\n"
 	}
 
 	d := slot["header"] + "package d\n\n" +
@@ -173,6 +183,8 @@ func c09Program(s c09Site, place string, c string) *prog.Program {
 		slot["varDoc"] + "var V int" + slot["varTrail"] + "\n\n" +
 		"// Stringer is an interface that T does not implement.\ntype Stringer interface{ String() string }\n\n" +
 		typeDecl + "\n" +
+		"// Doer is implemented by *T; its method is called through the interface below and in u.\ntype Doer interface {\n" + slot["imethDoc"] + "\tDo() int" + slot["imethTrail"] + "\n}\n\n" +
+		"func (t *T) Do() int { return t.F }\n\n" +
 		"func NewT() *T { return &T{S: make([]int, 1)} }\n\n" +
 		slot["funcDetached"] + slot["funcDoc"] + "func Helper() int { return 1 }" + slot["funcTrail"] + "\n\n" +
 		slot["methDoc"] + "func (t *T) Get() int { return t.F }\n\n" +
@@ -185,7 +197,7 @@ func c09Program(s c09Site, place string, c string) *prog.Program {
 		"\tvar l T\n\tl.F = 1\n\tl.F++\n\t_ = T{}\n\t_ = new(T)\n\treturn l.F\n}\n\n" +
 		"var _ = local2\n\n" +
 		"func useInD() int {\n" + slot["body"] +
-		"\tt := T{S: make([]int, 1)}\n\tt.F = 1\n\tt.F += 2\n\tt.F++\n\tt.S[0] = 1\n\tp := new(T)\n\tvar z T\n\t_ = z\n\treturn Helper() + p.Get() + t.Get() + local()\n}\n\n" +
+		"\tt := T{S: make([]int, 1)}\n\tt.F = 1\n\tt.F += 2\n\tt.F++\n\tt.S[0] = 1\n\tp := new(T)\n\tvar z T\n\t_ = z\n\tvar dr Doer = p\n\tif t.Fn != nil {\n\t\t_ = t.Fn()\n\t}\n\treturn Helper() + p.Get() + t.Get() + local() + dr.Do()\n}\n\n" +
 		"var _ = useInD\n" + slot["eof"]
 
 	u := "package u\n\nimport \"ex.com/m/d\"\n\n" +
@@ -193,8 +205,8 @@ func c09Program(s c09Site, place string, c string) *prog.Program {
 		"func Use(p *d.T, h Holder) (d.T, int) {\n" +
 		"\tvar x d.T\n\tx.F = 1\n\tx.F += 1\n\tx.F++\n\tx.S = make([]int, 1)\n\tx.S[0] = 2\n\tp.F = 3\n\th.X.F = 4\n" +
 		"\ty := d.T{F: 1}\n\tz := new(d.T)\n\tw := &d.T{}\n" +
-		"\tn := d.Helper() + y.Get() + z.Get() + x.Get() + w.Get()\n\tf := d.Helper\n\tg := (*d.T).Get\n\tvar s d.Stringer\n\t_ = s\n" +
-		"\treturn x, n + f() + g(p) + d.K + d.V\n}\n\n" +
+		"\tn := d.Helper() + y.Get() + z.Get() + x.Get() + w.Get()\n\tf := d.Helper\n\tg := (*d.T).Get\n\tvar s d.Stringer\n\t_ = s\n\tvar dr d.Doer = p\n\tif x.Fn != nil {\n\t\tn += x.Fn()\n\t}\n" +
+		"\treturn x, n + f() + g(p) + d.K + d.V + dr.Do()\n}\n\n" +
 		"var G = d.T{}\n\nvar H d.T\n\nvar _ = func() int { H.F = 1; return d.Helper() }()\n"
 
 	ut := "package u\n\nimport \"ex.com/m/d\"\n\n" +
